@@ -17,6 +17,8 @@ def main(opts) -> int:
         return setup(opts)
     if what == "determinism":
         return determinism(opts)
+    if what == "digests":
+        return digests(opts)
     if what == "sensitivity":
         from . import sensitivity
 
@@ -46,24 +48,66 @@ def setup(opts) -> int:
     return 0
 
 
-def _digests(engine: str, seeds: int, workers: int, hashseed: int) -> dict:
+ENGINE_SEEDS = {"C14": 120, "C15": 120, "C18": 80}
+
+
+def digests(opts) -> int:
+    """Print one line per (engine, seed index): the digest of that run's event log."""
+    from . import boot, faults, histories, schedules
+
+    eng_name = os.environ.get("VERIF_DIGEST_ENGINE", "C14")
+    eng = {"C14": histories, "C15": schedules, "C18": faults}[eng_name]
+    boot.bootstrap(coop_locks=(eng_name == "C15"))
+    n = opts.seeds or ENGINE_SEEDS[eng_name]
+    jobs = [{"root": opts.seed, "idx": i} for i in range(n)]
+    results, _ = core.pool_map(eng.job, jobs)
+    rc = 0
+    for i in range(n):
+        r = results.get(i)
+        if r is None or "harness_error" in r:
+            print(f"HARNESS-ERROR digest run {i}: {(r or {}).get('harness_error', 'missing')[:300]}")
+            rc = 2
+        else:
+            print(f"DIGEST {eng_name} {i} {r['digest']} v={len(r['violations'])}")
+    return rc
+
+
+def _digest_run(engine: str, seeds: int, workers: int, hashseed: int) -> dict:
     env = dict(os.environ)
     env.pop("VERIF_BOOTED", None)
     env["VERIF_HASHSEED"] = str(hashseed)
-    env["VERIF_WORKERS"] = str(workers)
+    env["VERIF_DIGEST_ENGINE"] = engine
     cp = subprocess.run([os.path.join(core.VERIF_DIR, "check"), "selftest", "digests", "--seeds", str(seeds),
-                         "--tier", "quick", "--runs", "0", "--wall", "0", "--no-evidence", "--workers", str(workers),
-                         ], env=dict(env, VERIF_DIGEST_ENGINE=engine), capture_output=True, text=True, timeout=3000)
+                         "--workers", str(workers), "--no-evidence"],
+                        env=env, capture_output=True, text=True, timeout=3000)
     out = {}
     for line in cp.stdout.splitlines():
         if line.startswith("DIGEST "):
-            _, i, d = line.split()
-            out[int(i)] = d
-    if cp.returncode != 0:
-        raise core.HarnessError(f"digest run failed: {cp.stdout[-1500:]} {cp.stderr[-1500:]}")
+            parts = line.split()
+            out[int(parts[2])] = parts[3]
+    if cp.returncode != 0 or len(out) != seeds:
+        raise core.HarnessError(f"digest run failed ({engine}, W={workers}, hs={hashseed}): "
+                                f"{cp.stdout[-800:]} {cp.stderr[-800:]}")
     return out
 
 
 def determinism(opts) -> int:
-    print("HARNESS-ERROR determinism selftest not built yet")
-    return 2
+    """Every seed twice in separate processes, at 1-ish and 16 workers, under
+    two PYTHONHASHSEEDs; all run digests must agree (DESIGN 7)."""
+    bad = 0
+    total = 0
+    for eng in ("C14", "C15", "C18"):
+        n = opts.seeds or ENGINE_SEEDS[eng]
+        base = _digest_run(eng, n, 16, 0)
+        for (w, hs) in ((16, 0), (3, 0), (16, 4242)):
+            other = _digest_run(eng, n, w, hs)
+            diff = [i for i in range(n) if base[i] != other[i]]
+            total += n
+            print(f"determinism {eng}: W=16/hs=0 vs W={w}/hs={hs}: {n - len(diff)}/{n} digests equal"
+                  + (f"  DIFFER at {diff[:10]}" if diff else ""))
+            bad += len(diff)
+    if bad:
+        print(f"HARNESS-ERROR nondeterminism: {bad} of {total} run digests differ")
+        return 2
+    print(f"determinism ok: {total} comparisons")
+    return 0
